@@ -12,7 +12,7 @@ import os
 import time
 
 from .. import planlib, world
-from ..catalogue import mk_candles
+from ..catalogue import encode, mk_candles
 from ..core import Discard, LibError, Violation, run_property
 from ..subjects import ROUTES, build_route
 from ..util import candle_full, sub_rng, tf_seconds
@@ -74,7 +74,8 @@ def plan(seed, subbatch):
     fired["placed_on_" + where] += 1
     fired["tz_switch_ops"] += switches
     return {"format": 1, "property": ID, "seed": seed, "subbatch": subbatch,
-            "config": {"route": route, "tf": tf, "base_s": base_s, "fill": cfg.random() < 0.5},
+            "config": {"route": route, "tf": tf, "base_s": base_s, "fill": cfg.random() < 0.5,
+                       "enc": cfg.choice(("candles", "candles", "dicts_iso", "dicts"))},
             "ops": [{"op": "new", "preload": pre}] + ops, "fired": dict(fired)}
 
 
@@ -110,7 +111,8 @@ def _run_under(run, trace, zone, count_budget):
                         continue
                     delivered.extend(rows)
                     span_n = (delivered[-1][0] - delivered[0][0]) // tf_seconds(tf)
-                    run.call(len(delivered) * 2 + span_n, subject.append, mk_candles(rows))
+                    run.call(len(delivered) * 2 + span_n, subject.append,
+                             encode(rows, cfg.get("enc") or "candles") if rows else [])
                 elif kind == "tz":
                     current = "UTC" if current == zone else zone
                     _set_tz(current)
